@@ -20,8 +20,11 @@ class Message:
     def _check_args(self):
         if any(type(arg)(' ') in arg in arg for arg in self.args[:-1] if isinstance(arg, str)):
             raise Error('Space can only appear in the very last arg')
-        if any(type(arg)('\n') in arg for arg in self.args if isinstance(arg, str)):
-            raise Error('No newline allowed')
+        head = [str(self.command)] + ([self.prefix] if self.prefix is not None else [])
+        if any(' ' in part for part in head):
+            raise Error('No space allowed in command or prefix')
+        if any(c in part for part in head + self.args if isinstance(part, str) for c in '\r\n\0'):
+            raise Error('No CR, LF or NUL allowed')
 
     @staticmethod
     def from_string(s):
